@@ -88,11 +88,25 @@ Greedy(I, X, LA) ==
               /\ MaxRank(I, R) > Rank(I, XR[1])
            THEN {"C13:GreedyNotAboveExhaustiveBest"} ELSE {})
 
+\* ---------------------------------------------------------------- the constraint-set queries (drift notes)
+\* The public queries of a fresh object, recorded next to the searches, must be the sets the contract computes its
+\* obligations from (MMDefs!Admitted and friends). A mismatch is reported as QUERY:* = drift between model and code;
+\* it is not a clause of a listed property.
+Queries(I, X) ==
+  LET q == I.queries
+  IN IF ~q.recorded THEN {} ELSE
+     (IF SeqToSet(q.overBudget) # OverBudget(I) THEN {"QUERY:GeosOverBudget"} ELSE {})
+     \cup (IF SeqToSet(q.tooLarge) # TooLarge(I) THEN {"QUERY:GeosTooLarge"} ELSE {})
+     \cup (IF SeqToSet(q.mustInclude) # MustInclude(I) THEN {"QUERY:GeosMustInclude"} ELSE {})
+     \cup (IF ~MayReject(I) /\ q.admittedOk /\ SeqToSet(q.admitted) # X.adm THEN {"QUERY:GeosWithinConstraints"} ELSE {})
+     \cup (IF MayReject(I) /\ q.admittedOk THEN {"QUERY:TruncationRejectsTooManyMustInclude"} ELSE {})
+     \cup (IF ~MayReject(I) /\ q.sizesOk /\ SeqToSet(q.sizes) # X.sizes THEN {"QUERY:TreatmentSizeRange"} ELSE {})
+
 Judge(I) ==
   LET X == Ctx(I)
       LA == LegalAdmitted(I, X)
   IN [id |-> I.id,
-      fails |-> SetToSeq(Exhaustive(I, X, LA) \cup Greedy(I, X, LA)),
+      fails |-> SetToSeq(Exhaustive(I, X, LA) \cup Greedy(I, X, LA) \cup Queries(I, X)),
       \* facts about the instance that the driver uses for its vacuity guards
       facts |-> [obl |-> Cardinality(Obligations(I, X, LA)), feas |-> Cardinality(FeasibleAdmitted(I, X, LA)),
                  admitted |-> Cardinality(X.adm), mustInclude |-> Cardinality(X.must),
